@@ -6,7 +6,7 @@
 // Steps: copy the tree, type-check the packages under test with go/packages,
 // rewrite their ASTs (yield points, go statements, map/channel ranges, seam
 // selectors), write them back, copy the simulation runtime and engines into the
-// copy under zzverif/, inject server/zz_verif_sim.go, extend go.mod.
+// copy under zzverif/, extend go.mod.
 //
 // Exit status 2 with a reason if a seam the simulation relies on is missing or
 // the tree uses a construct the rewriter cannot lower faithfully (select,
@@ -53,6 +53,12 @@ var seams = map[string]map[string]string{
 	"database/sql":                 {"Open": "SQLOpen"},
 	"net":                          {"InterfaceByIndex": "InterfaceByIndex", "InterfaceByName": "InterfaceByName", "Interfaces": "Interfaces"},
 	"syscall":                      {"Socket": "SysSocket", "Close": "SysClose", "SetsockoptInt": "SysSetsockoptInt", "Sendto": "SysSendto"},
+	// the UDP sockets of server.listen4/listen6 ("pkg:Name" = a name in zzverif/<pkg>; the type names are kept so that
+	// the embedded field of listener4/listener6 is still called PacketConn)
+	"github.com/insomniacslk/dhcp/dhcpv4/server4": {"NewIPv4UDPConn": "NewIPv4UDPConn"},
+	"github.com/insomniacslk/dhcp/dhcpv6/server6": {"NewIPv6UDPConn": "NewIPv6UDPConn"},
+	"golang.org/x/net/ipv4":                       {"NewPacketConn": "sim4:NewPacketConn", "PacketConn": "sim4:PacketConn", "NewConn": "!", "NewRawConn": "!"},
+	"golang.org/x/net/ipv6":                       {"NewPacketConn": "sim6:NewPacketConn", "PacketConn": "sim6:PacketConn", "NewConn": "!"},
 	"math/rand":                    {"*": "!"},
 	"math/rand/v2":                 {"*": "!"},
 	"crypto/rand":                  {"*": "!"},
@@ -67,6 +73,7 @@ type rewriter struct {
 	sites  *[]string
 	tmp    int
 	needRT bool
+	extra  map[string]bool // further zzverif packages this file needs (sim4, sim6)
 	errs   []string
 	loops  []*loopCtx // enclosing for/range statements (innermost last); reset at function literals
 }
@@ -605,6 +612,13 @@ func (r *rewriter) expr(e ast.Expr) ast.Expr {
 							r.errorf(x.Pos(), "%s.%s is a source of nondeterminism or blocking the simulator has no seam for", path, x.Sel.Name)
 							return x
 						}
+						if i := strings.IndexByte(to, ':'); i > 0 {
+							if r.extra == nil {
+								r.extra = map[string]bool{}
+							}
+							r.extra[to[:i]] = true
+							return &ast.SelectorExpr{X: ast.NewIdent("zz" + to[:i]), Sel: ast.NewIdent(to[i+1:])}
+						}
 						return r.rt(to)
 					}
 				}
@@ -758,6 +772,12 @@ func (r *rewriter) fixImports() {
 		spec := &ast.ImportSpec{Name: ast.NewIdent(simrtName), Path: &ast.BasicLit{Kind: token.STRING, Value: strconv.Quote(simrtPath)}}
 		gd := &ast.GenDecl{Tok: token.IMPORT, Specs: []ast.Spec{spec}}
 		r.file.Decls = append([]ast.Decl{gd}, r.file.Decls...)
+	}
+	for _, pk := range []string{"sim4", "sim6"} {
+		if r.extra[pk] {
+			spec := &ast.ImportSpec{Name: ast.NewIdent("zz" + pk), Path: &ast.BasicLit{Kind: token.STRING, Value: strconv.Quote(filepath.Dir(simrtPath) + "/" + pk)}}
+			r.file.Decls = append([]ast.Decl{&ast.GenDecl{Tok: token.IMPORT, Specs: []ast.Spec{spec}}}, r.file.Decls...)
+		}
 	}
 	// drop empty import decls
 	var decls []ast.Decl
@@ -926,15 +946,6 @@ func main() {
 	if err := copyTree(*sim, zz, func(rel string, d fs.DirEntry) bool { return strings.HasPrefix(filepath.Base(rel), ".") }); err != nil {
 		die("copy sim: %v", err)
 	}
-	// injected server file
-	inj, err := os.ReadFile(filepath.Join(*sim, "inject", "server_sim.go.txt"))
-	if err != nil {
-		die("%v", err)
-	}
-	if err := os.WriteFile(filepath.Join(*out, "server", "zz_verif_sim.go"), inj, 0o644); err != nil {
-		die("%v", err)
-	}
-	os.RemoveAll(filepath.Join(zz, "inject"))
 	// site table
 	var sb strings.Builder
 	sb.WriteString("package simrt\n\nfunc init() {\n\tSiteTable = []string{\n")
